@@ -5,6 +5,7 @@
 package main
 
 import (
+	"github.com/metrico/qryn/writer/utils/helpers"
 	"encoding/hex"
 	"fmt"
 	"math/rand"
@@ -29,7 +30,8 @@ func runSoak(id int, seed int64, clients, pushes int) *Case2 {
 	}
 	b := newBench(pars, nil)
 	b.soak = rand.New(rand.NewSource(seed + 1))
-	b2 := &bench2{bench: b, rid: map[string]int64{}, nextRid: 1, status: map[int]int{}, keyRid: map[uint64]int64{}}
+	b2 := &bench2{bench: b, rid: map[string]int64{}, nextRid: 1, status: map[int]int{}, keyRid: map[uint64]int64{},
+		byRows: map[string][][2]int{}, bound: map[helpers.SizeGetter][2]int{}, taken: map[[2]int]bool{}, pushOf: map[int64]int{}}
 	b.l2 = b2
 	rn := &runner2{c: c, b: b2}
 	maps := make([]map[string]service.IInsertServiceV2, n)
